@@ -198,6 +198,8 @@ def make_ifj(method, full_output, include_origin):
             for sv in world['solvers']:
                 vc.ensure('every integrator uses the module tolerances, at most 1e-8',
                           all(isinstance(sv.opts.get(k_), float) and sv.opts.get(k_) <= 1e-8 for k_ in ('atol', 'rtol')))
+                vc.ensure('every integrator gets a step budget of at least 10000 internal steps per output time',
+                          isinstance(sv.opts.get('nsteps'), int) and sv.opts.get('nsteps') >= 10000)
                 vc.ensure('every integrator is given the Jacobian unless it is an explicit Runge-Kutta method',
                           sv.jac is jac or sv.name in ('dopri5', 'dop853'))
         vc.canary('canary: reachable', z3.BoolVal(False))
